@@ -117,6 +117,8 @@ struct EnvState {
 };
 extern EnvState env;
 void fs_reset();
+// Path resolution of the simulated file system (collapses '//' and '/./', honours a trailing '/').
+const FsNode* fs_resolve(const std::string& path, int* err);
 void env_reset();
 
 // ------------------------------------------------------------ heap budget
